@@ -37,7 +37,7 @@ def gen_plan(rng, tier, config, opts):
     want = opts.get('prop')         # C05 or C06: sessions of that property's schemes dominate
     lines = ['relic-sim-plan 1', 'engine protosim', 'config ' + config]
     lines.append('ENTROPY ' + rng.bytes(20).hex())
-    names = [n for n, s in SCHEMES.items() if want is None or s.prop == want]
+    names = [n for n, s in SCHEMES.items() if want not in ('C05', 'C06') or s.prop == want]
     profile = rng.weighted([('rsa', 14), ('pairing', 46), ('plain', 40)])
     if config == 'A381':
         curve = 'B12_P381'
